@@ -326,4 +326,50 @@ theorem isClose_iff (rtol atol a b : Rat) :
     isClose rtol atol a b = true ↔ |a - b| ≤ atol + rtol * |b| := by
   simp [isClose, ratAbs_eq]
 
+/-! ### `apply_on_boundary` / `_scale_bdry_cells` -/
+section bdry
+variable {K : Type} [CommRing K]
+
+theorem aob_interior (once : Bool) (shape : List Nat) :
+    ∀ (steps : List (BStep K)) (st : Nat → Bool × Bool) (A : List Nat → K) (idx : List Nat),
+      (∀ s ∈ steps, idx.getD s.ax 0 ≠ 0 ∧ idx.getD s.ax 0 + 1 ≠ shape.getD s.ax 0) →
+      applyOnBoundary once shape st steps A idx = A idx
+  | [], st, A, idx, _ => rfl
+  | s :: rest, st, A, idx, h => by
+    simp only [applyOnBoundary]
+    rw [aob_interior once shape rest _ _ idx (fun t ht => h t (List.mem_cons_of_mem _ ht))]
+    have hs := h s (List.mem_cons_self ..)
+    simp only [bStep]
+    cases s.fl <;> cases s.fr <;> simp only [] <;>
+      (try rw [if_neg (fun hh : idx.getD s.ax 0 + 1 = shape.getD s.ax 0 ∧ _ => hs.2 hh.1)]) <;>
+      (try rw [if_neg (fun hh : idx.getD s.ax 0 = 0 ∧ _ => hs.1 hh.1)])
+
+theorem bStep_scale (shape : List Nat) (st : Nat → Bool × Bool) (ax : Nat) (l r : K)
+    (A : List Nat → K) (idx : List Nat) :
+    bStep false shape st ⟨ax, some (l, 0), some (r, 0)⟩ A idx =
+      A idx * bdryFrac 1 (shape.getD ax 0) l r (idx.getD ax 0) := by
+  simp only [bStep, bdryFrac, affApply, Bool.not_false, Bool.true_or, and_true, add_zero]
+  split_ifs <;> ring
+
+theorem aob_scale (shape : List Nat) :
+    ∀ (fracs : List (K × K)) (ax : Nat) (st : Nat → Bool × Bool) (A : List Nat → K)
+      (idx : List Nat), fracs.length = (shape.drop ax).length →
+      applyOnBoundary false shape st (scaleSteps ax fracs) A idx =
+        A idx * bdryFracProd 1 ax (shape.drop ax) fracs idx
+  | [], ax, st, A, idx, h => by
+    have : shape.drop ax = [] := List.length_eq_zero_iff.1 h.symm
+    simp [scaleSteps, applyOnBoundary, bdryFracProd, this]
+  | (l, r) :: rest, ax, st, A, idx, h => by
+    have hlt : ax < shape.length := by
+      simp only [List.length_cons, List.length_drop] at h; omega
+    have hd : shape.drop ax = shape[ax] :: shape.drop (ax + 1) := List.drop_eq_getElem_cons hlt
+    have hg : shape.getD ax 0 = shape[ax] := by simp [List.getD_eq_getElem?_getD, hlt]
+    simp only [scaleSteps, applyOnBoundary]
+    rw [aob_scale shape rest (ax + 1) _ _ idx
+      (by simp only [List.length_cons, List.length_drop] at h ⊢; omega), bStep_scale, hd]
+    simp only [bdryFracProd, hg]
+    ring
+
+end bdry
+
 end OdlModel.C16
